@@ -9,21 +9,26 @@ def build(ctx):
     objs = B.build_lib("asan", d)
     exes = {"h_table": B.build_harness("asan", d, "h_table", ["h_table.c", "refdec.c"], objs)}
     exes.update(B.build_tools("asan", d, objs, names=("mtbl_dump", "mtbl_info")))
+    d2 = ctx.builddir + "/plain"
+    exes["h_table.plain"] = B.build_harness("plain", d2, "h_table.plain", ["h_table.c", "refdec.c"], B.build_lib("plain", d2))
     return exes
 
 
 def run(ctx):
     exes = build(ctx)
     th = ctx.tier == "thorough"
-    ctx.fan(exes["h_table"], "c01", 40000 if th else 3000, ["--aux", exes["mtbl_dump"]], timeout=120, closed_stdin_every=5)
+    # beside the main fan: a table whose middle value has more than 2^31 bytes (snappy; thorough: none and zlib too), -O2 build
+    ctx.fan_parallel([((exes["h_table"], "c01", 40000 if th else 3000, ["--aux", exes["mtbl_dump"]]), dict(timeout=120, closed_stdin_every=5, max_workers=14)),
+                      ((exes["h_table.plain"], "bigvalue", 3 if th else 1), dict(chunk=1, timeout=900, max_workers=1))])
     s = ctx.stats
     ctx.assumptions += ["oracle = the generated strictly increasing sequence itself (sorted with the harness's own comparator)",
-                        "block_restart_interval 0 and keys/values >= 4 GiB are outside the quantifier and not generated"]
+                        "block_restart_interval 0 and keys/values >= 4 GiB are outside the quantifier and not generated; values above 2 GiB only in the three-entry bigvalue tables"]
     return ctx.finish(
         rule="seeded generator: key shapes {tiny alphabet 00/ff/a/b, long shared prefix up to >16 KiB, random bytes, sequential, mixed}, values {empty..>16 KiB, larger than a block}, "
              "0..~3000 entries (thorough ~22000), writer configuration drawn from 6 compression types x level classes x block sizes x restart intervals x pool sizes x foreign prefix lengths; "
              "non-trivial = every generated case; distinct = distinct (content, configuration) hashes",
         evaluations=s.get("c01.files", 0),
         floors={"c01.files": 2500, "c01.entries_compared": 50000, "gen.key_ge_128": 50, "gen.value_ge_16k": 5, "gen.empty_key": 20,
-                "gen.shared_prefix_ge_128": 50, "c01.files_pooled": 100, "dump.entries_compared": 1000, "dump.invocations.plain": 50},
+                "gen.shared_prefix_ge_128": 50, "c01.files_pooled": 100, "dump.entries_compared": 1000, "dump.invocations.plain": 50, "bigvalue.snappy": 1,
+                **({"bigvalue.none": 1, "bigvalue.zlib": 1} if th else {})},
         extra={"dump_invocations": sum(v for k, v in s.items() if k.startswith("dump.invocations."))})
